@@ -166,6 +166,14 @@ class HashSeedEngine(Engine):
             core = [[anchor[0], min(length, anchor[1] + rng.choice([0, 10, 30]))]]
             dist = rng.choice([0, 5, 20, 400])
             loc = [[max(0, core[0][0] - dist), min(length, core[0][1] + dist)]]
+            if circular and rng.random() < 0.4:
+                # neighbourhood wrapping over the origin, up to nearly the whole record
+                gap = rng.choice([1, 5, 30])
+                gap_start = rng.choice([g for g in (core[0][1] + 2, core[0][0] - gap - 2) if 0 < g < length - gap] or [0])
+                if gap_start and not (gap_start < core[0][1] and gap_start + gap > core[0][0]):
+                    loc = [[gap_start + gap, length], [0, gap_start]]
+                    if not any(p[0] <= core[0][0] and core[0][1] <= p[1] for p in loc):
+                        loc = [[0, length]]
             product = rng.choice(products)
             if any(p["loc"] == loc and p["core"] == core and p["product"] == product for p in protos):
                 continue
